@@ -26,6 +26,8 @@ NATIVE_PY = os.environ.get('PYVC_NATIVE_PY', '/venv/bin/python')
 # property -> contract modules that carry its harnesses
 MODULES = {
     'C15': ['contracts.c15'],
+    'C19': ['contracts.c19'],
+    'C16': ['contracts.c16'],
 }
 
 EXTRACTION_DROPS = ['docstrings', 'type annotations', 'typing.cast (identity)', 'with torch.no_grad() (body kept)',
